@@ -285,9 +285,22 @@ Qed.
 
 Lemma exec_mock_no_sig o g : exec_mock o <> OKSig g.
 Proof. unfold exec_mock. break_match; discriminate. Qed.
+Lemma pay_row_no_sig actor j from to g : pay_row actor j from to <> OKSig g.
+Proof.
+  revert j to; induction from as [|f from IH]; intros j to; cbn [pay_row]; [discriminate|].
+  destruct to as [|t to]; [discriminate|]. destruct (if j =? actor then _ else _); [apply IH|discriminate].
+Qed.
+Lemma pay_rows_no_sig actor from to g : pay_rows actor from to <> OKSig g.
+Proof.
+  revert to; induction from as [|f from IH]; intros to; cbn [pay_rows]; [discriminate|].
+  destruct to as [|t to]; [discriminate|].
+  destruct (pay_row actor 0 f t) eqn:E; try discriminate; [apply IH|].
+  exfalso. eapply pay_row_no_sig; exact E.
+Qed.
 Lemma vt_no_sig m s a g : valid_transition m s a <> OKSig g.
 Proof.
-  unfold valid_transition, app_valid_transition. break_match; try discriminate; apply exec_mock_no_sig.
+  unfold valid_transition, app_valid_transition. break_match; try discriminate;
+    first [apply exec_mock_no_sig | apply pay_rows_no_sig].
 Qed.
 
 Lemma avi_no_sig m d g : app_valid_init m d <> OKSig g.
